@@ -233,6 +233,21 @@ class Explorer:
                 else:
                     items_.append(self.value(x, env))
             return tuple(items_) if isinstance(e, ast.Tuple) else items_
+        if isinstance(e, ast.Dict) and self.enter_with:
+            # a display: item by item, in order (`{**defaults, "op": self.name, "path": str(self.path)}`)
+            out_d: Dict[Any, Any] = {}
+            for k_d, v_d in zip(e.keys, e.values):
+                if k_d is None:
+                    spread = self.value(v_d, env)
+                    if not isinstance(spread, dict) or isinstance(spread, AbstractObject):
+                        return UNKNOWN
+                    out_d.update(spread)
+                    continue
+                kv_d = self.value(k_d, env)
+                if kv_d is UNKNOWN or isinstance(kv_d, (Text, AbstractObject, list, dict)):
+                    return UNKNOWN
+                out_d[kv_d] = self.value(v_d, env)
+            return out_d
         if isinstance(e, ast.Attribute):
             base = self.value(e.value, env) if isinstance(e.value, (ast.Name, ast.Attribute)) or (
                 self.enter_with and isinstance(e.value, (ast.Subscript, ast.Call))) else None
@@ -359,7 +374,7 @@ class Explorer:
                      or (isinstance(e.func, ast.Attribute) and e.func.attr == "reduce" and isinstance(e.func.value, ast.Name) and e.func.value.id == "functools"))):
             # functools.reduce with a callable and a sequence the path knows: folded step by step
             f_, seq_, acc_ = (self.value(a_, env) for a_ in e.args)
-            if isinstance(f_, Callable_) and isinstance(seq_, (list, tuple)) and len(seq_) <= 16:  # noqa: PLR2004
+            if isinstance(f_, Callable_) and isinstance(seq_, (list, tuple)) and len(seq_) <= 64:  # noqa: PLR2004
                 for item_ in seq_:
                     acc_ = self.apply(f_, [acc_, item_], e)
                     if acc_ is UNKNOWN:
@@ -809,7 +824,7 @@ class Explorer:
             if g.is_async:
                 return None
             seq = self.value(g.iter, env2)
-            if not isinstance(seq, (tuple, list)) or len(seq) > 16:  # noqa: PLR2004
+            if not isinstance(seq, (tuple, list)) or len(seq) > 64:  # noqa: PLR2004
                 return None
             for item in seq:
                 inner = dict(env2)
@@ -1347,7 +1362,7 @@ class Explorer:
             seq = self.value(s.iter, env)
             if not isinstance(seq, (tuple, list)) and s.orelse:
                 raise AnalysisError(f"partial evaluation of {self.fn.qualname}: for/else over an unknown sequence")
-            if isinstance(seq, (tuple, list)) and len(seq) <= 16:  # noqa: PLR2004
+            if isinstance(seq, (tuple, list)) and len(seq) <= 64:  # noqa: PLR2004
                 # a loop over a sequence the path knows: executed item by item
                 live = [env]
                 done: List[Dict[str, Any]] = []
